@@ -55,7 +55,19 @@ def _determined_by(init, attr_roots):
     return det
 
 
-def run_rule(run, rule_id, rels):
+CONTROL = """
+class Arg:
+    def __init__(self, w, e):
+        self.width = w
+        self.exp = e
+    def __hash__(self):
+        return hash((self.width, self.exp))
+    def __eq__(self, other):
+        return self.width == other.width and self.exp == self.exp
+"""
+
+
+def run_rule(run, rule_id, rels, _control=False):
     run.begin(
         rule_id,
         "__eq__ pairs every attribute of self with the SAME attribute of the other object (no self-comparison) and "
@@ -64,8 +76,9 @@ def run_rule(run, rule_id, rels):
         floor=1,
     )
     n = 0
-    for rel in rels:
-        m = run.idx.mod(rel)
+    mods = [run.idx.mod(rel) for rel in rels]
+    for m in mods:
+        rel = m.rel
         for cname in m.classes:
             eq = m.functions.get(f"{cname}.__eq__")
             if eq is None or len(eq.node.args.args) != 2:
@@ -97,4 +110,11 @@ def run_rule(run, rule_id, rels):
                 run.ob(not missing, f"{cname}.__eq__", file=rel, line=eq.node.lineno, detail="agrees-with-hash", expected=f"compares or determines everything __hash__ uses ({sorted(hashed)})", found=("ok" if not missing else f"hashed but not compared: {missing}"))
     if n < 1:
         raise AnalysisError(f"{rule_id}: no __eq__ method with comparisons found in {rels}")
+    # positive control: a tautological comparison must be recognised on every run
+    import ast as _ast
+    ctl = _ast.parse(CONTROL)
+    taut = [c for c in _ast.walk(ctl) if isinstance(c, _ast.Compare) and (dotted(c.left) or "") == (dotted(c.comparators[0]) or "#")]
+    if len(taut) != 1:
+        raise AnalysisError(f"{rule_id}: positive control not recognised")
+    run.note("positive control recognised: `self.exp == self.exp`")
     run.end()
